@@ -129,7 +129,7 @@ put_ubytes (FILE *f, const unsigned char *b, int n)
     fputc (']', f);
 }
 
-#define MAX_VIOL 500
+#define MAX_VIOL 3000
 static void
 viol (const char *kind, const char *what, int mode, int ob,
       const long *b, int n, long exp, long got, long extra)
@@ -149,6 +149,16 @@ drift_local (int mode, int ob, const long *b, int n, int rc, int mrc)
     cnt.drift++;
     if (cnt.drift > 200000) return;
     fprintf (f_drift, "{\"e\":\"local\",\"o\":%d,\"mode\":%d,\"in\":", ob, mode);
+    put_bytes (f_drift, b, n);
+    fprintf (f_drift, ",\"rc\":%d,\"mrc\":%d}\n", rc, mrc);
+}
+
+static void
+drift_ev (const char *kind, int mode, int ob, const long *b, int n, int rc, int mrc)
+{
+    cnt.drift++;
+    if (cnt.drift > 200000) return;
+    fprintf (f_drift, "{\"e\":\"%s\",\"o\":%d,\"mode\":%d,\"in\":", kind, ob, mode);
     put_bytes (f_drift, b, n);
     fprintf (f_drift, ",\"rc\":%d,\"mrc\":%d}\n", rc, mrc);
 }
